@@ -164,7 +164,14 @@ func genHist(g *hx.Gen, forceTwoStep bool, a, b int) {
 			}
 		}
 	}
-	g.Emit("hist key=%s nonce=%s ops=%s src=%s", hx.Hex(key), hx.Hex(nonce), hx.JoinStrs(ops), hx.Hex(src))
+	// m = blocksPerBuf of the *model* (the real code here always has bufSize = 64): 1 in 5 histories are run
+	// through the model of the bufSize = 256 ports, which must give the same observable
+	m := 1
+	if r.Chance(1, 5) {
+		m = 4
+		g.Stat("model-bufsize-256")
+	}
+	g.Emit("hist m=%d key=%s nonce=%s ops=%s src=%s", m, hx.Hex(key), hx.Hex(nonce), hx.JoinStrs(ops), hx.Hex(src))
 }
 
 func gen(g *hx.Gen) {
